@@ -37,18 +37,13 @@ for h in c15_ring c07_tasksched c08_threadsched c14_logging c20_threads c03_sba 
   if [ -f $V/harness/$h.cc ]; then SRCS="$SRCS harness/$h.cc"; id=$(echo $h | cut -c1-3 | tr a-z A-Z); DEFS="$DEFS -DHAVE_$id"; fi
 done
 [ $FL = B ] && SRCS="$SRCS sim/tsan_shim.cc"
+# DEFS stamp: recompile everything when the set of harnesses changes
+echo "$DEFS $HFLAGS" | cmp -s - $B/obj/defs.stamp 2>/dev/null || echo "$DEFS $HFLAGS" > $B/obj/defs.stamp
+REAL_SRCS=""
+for s in $SRCS; do [ -f $V/$s ] && REAL_SRCS="$REAL_SRCS $s"; done
+make -s -j16 -f $V/Makefile.harness B=$B CXX=$CXX HFLAGS="$HFLAGS" DEFS="$DEFS" INC="$INC" SRCS="$REAL_SRCS" > $B/harness.log 2>&1 || { tail -40 $B/harness.log; echo "harness compile failed"; exit 2; }
 OBJS=""
-pids=""
-for s in $SRCS; do
-  [ -f $V/$s ] || continue
-  o=$B/obj/$(echo $s | tr / _).o
-  OBJS="$OBJS $o"
-  if [ ! -f $o ] || [ $s = harness/common.cc ] || [ $V/$s -nt $o ] || [ -n "$(find $V/sim $V/harness -name '*.h' -newer $o | head -1)" ] || [ $V/build.sh -nt $o ]; then
-    $CXX -std=c++17 $HFLAGS $DEFS $INC -Wall -Wno-unused-function -c $V/$s -o $o &
-    pids="$pids $!"
-  fi
-done
-for p in $pids; do wait $p || { echo "harness compile failed"; exit 2; }; done
+for s in $REAL_SRCS; do OBJS="$OBJS $B/obj/$(echo $s | tr / _).o"; done
 WRAPS="pthread_create pthread_join pthread_detach pthread_mutex_init pthread_mutex_destroy pthread_mutex_lock pthread_mutex_trylock pthread_mutex_unlock pthread_cond_init pthread_cond_destroy pthread_cond_wait pthread_cond_timedwait pthread_cond_signal pthread_cond_broadcast pthread_attr_setaffinity_np pthread_setname_np clock_gettime nanosleep fopen fileno fstat posix_memalign free aws_priority_queue_push_ref"
 W=""
 for w in $WRAPS; do W="$W -Wl,--wrap=$w"; done
